@@ -545,4 +545,31 @@ def check_C19(pid, tier, seed, verdict):
                  "process with the same process-wide state rules"]
 
 
-CHECKS = {"C19": check_C19, "C18": check_C18, "C15": check_C15, "C06": check_C06, "C17": check_C17, "C16": check_C16, "C07": check_C07, "C12": check_C12, "C13": check_C13, "C10": check_C10, "C14": check_C14, "C09": check_C09, "C11": check_C11, "C01": check_C01, "C02": check_C02, "C03": check_C03, "C04": check_C04, "C05": check_C05}
+# ------------------------------------------------------------------------------------------- C08
+def check_C08(pid, tier, seed, verdict):
+    # receiving side (FIN handling, EOF after queued data, table release): the in-memory rigs of C01/C02
+    mcs, scs, run, res = _mux(pid, tier, seed, verdict)
+    mine = dict(res)
+    mine["bad"] = [b for b in res["bad"] if _mux_owner(b["why"]) == pid]
+    verdict.add_trace_result("mux", mine, run)
+    # sending side, end to end through the real front-ends
+    crun = V.run_harness(pid, "close", seed, tier)
+    cres = V.run_trace(pid, "Trace_Close.tla", "Trace_Close.cfg", crun["trace"])
+    verdict.add_trace_result("close", cres, crun)
+    cnt, cc = res["cnt"], cres["cnt"]
+    V.log(f"[{pid}] trace: receive side {cnt['scn']} scenarios / {cnt['fin']} FINs / {cnt['quiesce']} quiescence checks "
+          f"(bad({pid})={len(mine['bad'])}); sending side {cc['scn']} proxied connections / {cc['cgot']} end-of-stream "
+          f"observations (bad={len(cres['bad'])})")
+    cov = _cov(mcs, cnt["scn"] + cc["scn"], cnt["nontrivial"] + cc["nontrivial"],
+               MUX_RULE + "; plus (sending side, real time) proxied connections through the real SOCKS5 and HTTP CONNECT front-ends, "
+               "the real Client and server and a scripted loopback target: the application half-closes / the target closes / the "
+               "application closes with 0..300000 bytes in flight in either direction, sibling connections on the same sessions; "
+               "the opposite endpoint must have received exactly what was sent and must observe end-of-stream (absence is judged "
+               "after 3 s), and the other direction must keep carrying data", V.sample_descrs(crun["descr"]) + V.sample_descrs(run["descr"], 2),
+               True, dict(trace_events=res["lines"] + cres["lines"], event_counts=cnt, close_event_counts=cc))
+    return cov, ["absence of end-of-stream is judged after 3 s of real time (all scenarios run concurrently)",
+                 "release of per-stream state is checked through the table-size accessor on the in-memory rigs (FIN receipt); the "
+                 "tables of sessions behind the real front-ends are not reachable"]
+
+
+CHECKS = {"C08": check_C08, "C19": check_C19, "C18": check_C18, "C15": check_C15, "C06": check_C06, "C17": check_C17, "C16": check_C16, "C07": check_C07, "C12": check_C12, "C13": check_C13, "C10": check_C10, "C14": check_C14, "C09": check_C09, "C11": check_C11, "C01": check_C01, "C02": check_C02, "C03": check_C03, "C04": check_C04, "C05": check_C05}
